@@ -252,11 +252,29 @@ public:
   }
 
   virtual bool operator<=(const powerset_domain_t &other) const override {
-    powerset_domain_t pow_left(*this);
-    powerset_domain_t pow_right(other);
-    Domain left = smash_disjuncts(pow_left);
-    Domain right = smash_disjuncts(pow_right);
-    return left <= right;
+    // The right operand cannot be smashed: the join of its disjuncts
+    // can be strictly larger than their union.  We answer yes only if
+    // each disjunct of the left operand is included in some disjunct
+    // of the right operand (sound but incomplete).
+    if (is_bottom() || other.is_top()) {
+      return true;
+    }
+    for (unsigned i = 0, sz_i = m_disjuncts.size(); i < sz_i; ++i) {
+      if (m_disjuncts[i].is_bottom()) {
+        continue;
+      }
+      bool included = false;
+      for (unsigned j = 0, sz_j = other.m_disjuncts.size(); j < sz_j; ++j) {
+        if (m_disjuncts[i] <= other.m_disjuncts[j]) {
+          included = true;
+          break;
+        }
+      }
+      if (!included) {
+        return false;
+      }
+    }
+    return true;
   }
 
   virtual void operator|=(const powerset_domain_t &other) override {
